@@ -168,10 +168,19 @@ class Gen:
         r = self.r
         ops = [f"save_group 1 11 3 0 1 0 - - - 0 0 0"]
         ids = r.sample(MIDS, min(n, len(MIDS)))
+        seen = {}
         for mid in ids:
             c, pr = r.choice(TS), r.choice(TS)
+            seen[mid] = (c, pr)
             ops.append(f"save_message {mid} 1 0 9 {c} {pr} 1 8 0 {r.choice(WRAPS)} 1 1")
             ops.append(f"upd_last 1 {c} {pr} {mid}")
+            if r.random() < 0.3:
+                # the same message stored again later (its sender re-sent it): same created_at, later processed_at
+                m2 = r.choice(list(seen))
+                c2, p2 = seen[m2][0], seen[m2][1] + r.choice([1, 2])
+                seen[m2] = (c2, p2)
+                ops.append(f"save_message {m2} 1 0 9 {c2} {p2} 1 8 0 {r.choice(WRAPS)} 1 1")
+                ops.append(f"upd_last 1 {c2} {p2} {m2}")
         ops += ["messages 1 10000 0 0", "find_group 1"]
         return ops
 
